@@ -239,8 +239,11 @@ func c09Body(r *Run) {
 	})
 
 	rig.Start()
-	// late handlers: each one fully registered, then RunHandlers (sometimes twice concurrently), while earlier ones are still starting
-	for i := nH; i < nH+nLate; i++ {
+	// in some runs the late handlers are registered side by side, one goroutine per handler (each handler's own
+	// middlewares keep their order; the router-level ones were all registered before Run): whatever order the calls
+	// take effect in, every handler's expected nesting is the same
+	concurrentLate := nLate > 1 && failDec < 0 && failSubDec < 0 && t.Chance(1, 3)
+	registerLate := func(i int) {
 		h := hs[i]
 		addHandler(h)
 		for _, lr := range lateRegs {
@@ -249,6 +252,26 @@ func c09Body(r *Run) {
 				h.h.AddMiddleware(mkMW(tag))
 				h.want = append(h.want, tag)
 			}
+		}
+	}
+	if concurrentLate {
+		r.Fault("concurrent-registration")
+		regDone := make(chan struct{}, nLate)
+		for i := nH; i < nH+nLate; i++ {
+			i := i
+			go func() {
+				registerLate(i)
+				regDone <- struct{}{}
+			}()
+		}
+		for i := 0; i < nLate; i++ {
+			<-regDone
+		}
+	}
+	// late handlers: each one fully registered, then RunHandlers (sometimes twice concurrently), while earlier ones are still starting
+	for i := nH; i < nH+nLate; i++ {
+		if !concurrentLate {
+			registerLate(i)
 		}
 		if i == nH && stopEarly >= 0 {
 			r.Fault("handler-stop-during-startup-of-another")
